@@ -1144,6 +1144,12 @@ pub unsafe extern "C" fn SFileVerifyFile(
         return false;
     };
 
+    verify_file_in_archive(archive_handle, filename_str, flags)
+}
+
+/// Verify one file of an archive whose handle-table entry the caller already holds
+/// (shared by SFileVerifyFile and SFileVerifyArchive, which must not lock ARCHIVES twice)
+fn verify_file_in_archive(archive_handle: &mut ArchiveHandle, filename_str: &str, flags: u32) -> bool {
     // Find the file first to get file info
     let file_info = match archive_handle.archive().find_file(filename_str) {
         Ok(Some(info)) => info,
@@ -1358,23 +1364,13 @@ pub unsafe extern "C" fn SFileVerifyArchive(archive: HANDLE, flags: u32) -> bool
             let all_verify_flags =
                 file_verify_flags | SFILE_VERIFY_FILE_CRC | SFILE_VERIFY_FILE_MD5;
 
-            // Use our own SFileVerifyFile function for consistency
-            unsafe {
-                let filename_cstr = match std::ffi::CString::new(file_entry.name.as_str()) {
-                    Ok(s) => s,
-                    Err(_) => continue, // Skip files with invalid names
-                };
-
-                if !SFileVerifyFile(
-                    id_to_handle(archive_id),
-                    filename_cstr.as_ptr(),
-                    all_verify_flags,
-                ) {
-                    let last_error = SFileGetLastError();
-                    // Only fail on corruption, not missing attributes
-                    if last_error == ERROR_FILE_CORRUPT {
-                        return false;
-                    }
+            // Same checks as SFileVerifyFile, on the archive entry that is already locked
+            // (calling SFileVerifyFile here would lock ARCHIVES a second time and never return)
+            if !verify_file_in_archive(archive_handle, &file_entry.name, all_verify_flags) {
+                let last_error = SFileGetLastError();
+                // Only fail on corruption, not missing attributes
+                if last_error == ERROR_FILE_CORRUPT {
+                    return false;
                 }
             }
         }
